@@ -15,8 +15,11 @@ UNKNOWN = "zz"
 _VEC = {"names": NAMES}                         # per case: the name vector in use
 
 
+NUMERIC = ["2", "10", "1", "3", "7"]             # purely numeric names (Ensembl style), not in numeric order
+
+
 def use_names(case):
-    _VEC["names"] = UNSORTED if case.get("names") == "unsorted" else NAMES
+    _VEC["names"] = UNSORTED if case.get("names") == "unsorted" else NUMERIC if case.get("names") == "numeric" else NAMES
 
 
 def cname(c):
